@@ -17,8 +17,8 @@ rhs and the explicit Euler step under all four names accepted by gotranx.schemes
 forward_euler, forward_explicit_euler; the two enum members also through get_code(scheme=[...])).  One case = one (model, back end,
 alias, point, dt) with dt in {0, 1e-12, 1, -3, 1e6}: the step must equal states + dt*rhs(t, states, parameters) computed with
 the rhs of the same module (rtol 1e-9 of |states|+|dt*rhs|), must return the input states bit-for-bit when dt = 0, and must leave
-the states/parameters arrays unmodified.  Models whose plain rhs cannot be generated / compiled / run on a back end are skipped (that
-belongs to C01/C02/C03).  Non-trivial: rhs not identically zero at the point and dt != 0; distinct by sha1(text, back end, alias, point, dt)."""
+the states/parameters arrays unmodified.  Models whose plain rhs cannot be generated / compiled / run on a back end, and points where the C / jax rhs is not
+reproducible or differs from the NumPy rhs, are skipped (that belongs to C01/C02/C03).  Non-trivial: rhs not identically zero at the point and dt != 0; distinct by sha1(text, back end, alias, point, dt)."""
 USES_SHRINK = True
 CASE_TIMEOUT = 60
 
@@ -49,6 +49,10 @@ def check(case):
         return res
     aliases = c.get("aliases", ALIASES)
     dts = c.get("dts", DTS)
+    try:
+        npref = be.build(ode, "numpy")
+    except be.Stage:
+        npref = None
     for bk in c.get("backends", BACKENDS):
         def add(kind, what, inp, exp=None, act=None, detail=""):
             f = cm.fail(f"C05:{bk}:{kind}", what, dict(inp, backends=[bk]), exp, act, detail)
@@ -79,6 +83,15 @@ def check(case):
                     continue
                 if not np.all(np.isfinite(f)):
                     continue
+                if bk != "numpy":  # the rhs of this back end must be the model's rhs (deterministic, equal to NumPy's): otherwise C02/C03
+                    try:
+                        again = mod.raw("rhs", s, pt["t"], p)[: mod.n_states]
+                        npf = npref.rhs(pt) if npref is not None else None
+                    except be.Stage:
+                        npf = None
+                    if not np.array_equal(again, f) or npf is None or not all(cm.close(f[mod.index("state", k)], v, 1e-9, 1e-12) for k, v in npf.items()):
+                        cm.note(res, f"skipped:{bk}:rhs-differs-from-numpy(C02/C03)")
+                        continue
                 for al in aliases:
                     for dt in dts:
                         res["evals"] += 1
